@@ -227,8 +227,11 @@ func raceSig(blk string) (string, bool) {
 		for _, l := range strings.Split(t, "\n") {
 			l = strings.TrimSpace(l)
 			if strings.HasPrefix(l, "github.com/elastos/Elastos.ELA/") {
-				fn = strings.SplitN(l, "(", 2)[0]
-				fn = strings.TrimPrefix(fn, "github.com/elastos/Elastos.ELA/")
+				// full function name without the argument list: "pkg/path.(*T).method.func1"
+				fn = strings.TrimPrefix(l, "github.com/elastos/Elastos.ELA/")
+				if i := strings.LastIndex(fn, "("); i > 0 && strings.HasSuffix(fn, ")") {
+					fn = fn[:i]
+				}
 				break
 			}
 		}
